@@ -174,8 +174,10 @@ def _has_marker(v):
 
 def uses_xml_only(ir, md, args):
     def walk(t):
-        if 'attr' in t or 'xmldata' in t:
+        if 'xmldata' in t:
             return True
+        if 'attr' in t:
+            return False      # an attribute member is an ordinary member of a dict document
         if 'ref' in t:
             return any(walk(ft) for _, ft in gen.all_fields(ir, t['ref']))
         for k in ('array', 'seq'):
